@@ -5,6 +5,7 @@ from __future__ import annotations
 import faulthandler
 import importlib
 import json
+import os
 import sys
 import time
 
@@ -18,6 +19,12 @@ def run_items(prop: str, tier: str, seed: int, items: list, deadline: float = fl
     ctx = Ctx(prop, tier, seed)
     cov = AnchorCoverage(getattr(mod, "ANCHORS", []))
     cov.start()
+    reach = None
+    if os.environ.get("VMON_REACH_DIR"):  # tools/apireach.py: which library functions does this workload enter at all
+        from .monitor.reach import ApiReach
+
+        reach = ApiReach(os.environ.get("VMON_REPO_SRC", "/repo/src"))
+        reach.start()
     setup = getattr(mod, "setup", None)
     if setup is not None:
         setup(ctx)
@@ -40,6 +47,10 @@ def run_items(prop: str, tier: str, seed: int, items: list, deadline: float = fl
             ctx.items_run += 1
     finally:
         cov.stop()
+        if reach is not None:
+            reach.stop()
+            with open(os.path.join(os.environ["VMON_REACH_DIR"], f"{prop}-{os.getpid()}.json"), "w") as f:
+                json.dump(reach.dump(), f)
         teardown = getattr(mod, "teardown", None)
         if teardown is not None:
             teardown(ctx)
